@@ -240,3 +240,315 @@ def write_molden(m):
     for i in range(len(m["atoms"])):
         out.append(f"{i + 1:4d} {0.7 if i == 0 else 0.1:18.10f}")
     return "\n".join(out) + "\n"
+
+
+# ---------------------------------------------------------------------------------------- FCHK
+# Gaussian formatted checkpoint file (Gaussian 16 user's reference, "Interfacing to Gaussian", formchk):
+#   line 1: title (up to 72 characters); line 2: type (A10), method (A30), basis (A30)
+#   scalar record:  label (A40), 3X, type (A1: I or R), 5X, value (I12 or E22.15)
+#   array record:   label (A40), 3X, type (A1), 3X, 'N=', count (I12); then the data, 6 integers (6I12) or
+#                   5 reals (5E16.8) per line
+# Shell types: 0=s, 1=p, -1=sp, 2=6d, -2=5d, 3=10f, -3=7f, ...; lower triangles are stored row by row.
+def _fchk_scalar(label, v):
+    if isinstance(v, int):
+        return f"{label:<40s}   I     {v:12d}"
+    return f"{label:<40s}   R     {v:22.15E}"
+
+
+def _fchk_array(label, vals, integer=False):
+    out = [f"{label:<40s}   {'I' if integer else 'R'}   N={len(vals):12d}"]
+    per = 6 if integer else 5
+    for k in range(0, len(vals), per):
+        chunk = vals[k:k + per]
+        out.append("".join(f"{v:12d}" for v in chunk) if integer else "".join(f"{v:16.8E}" for v in chunk))
+    return out
+
+
+def write_fchk(m):
+    """m: title, command, lot, basis, atoms [(Z, core charge, x, y, z, weight)], shells [(type, atom(1-based), exps, coeffs,
+    sp_coeffs or None)], nalpha, nbeta, alpha/beta (energies, coefficients[orbital][basis]) and optional property fields."""
+    out = [m["title"], f"{m['command']:<10s}{m['lot']:<30s}{m['basis']:>30s}"]
+    atoms = m["atoms"]
+    out.append(_fchk_scalar("Number of atoms", len(atoms)))
+    out.append(_fchk_scalar("Charge", m.get("charge", 0)))
+    out.append(_fchk_scalar("Multiplicity", m["nalpha"] - m["nbeta"] + 1))
+    out.append(_fchk_scalar("Number of electrons", m["nalpha"] + m["nbeta"]))
+    out.append(_fchk_scalar("Number of alpha electrons", m["nalpha"]))
+    out.append(_fchk_scalar("Number of beta electrons", m["nbeta"]))
+    out.append(_fchk_scalar("Number of basis functions", m["nbasis"]))
+    out += _fchk_array("Atomic numbers", [a[0] for a in atoms], integer=True)
+    out += _fchk_array("Nuclear charges", [a[1] for a in atoms])
+    out += _fchk_array("Current cartesian coordinates", [c for a in atoms for c in a[2:5]])
+    if m.get("weights", True):
+        out += _fchk_array("Real atomic weights", [a[5] for a in atoms])
+    if "frozen" in m:
+        out += _fchk_array("MicOpt", m["frozen"], integer=True)
+    shells = m["shells"]
+    out += _fchk_array("Shell types", [s[0] for s in shells], integer=True)
+    out += _fchk_array("Number of primitives per shell", [len(s[2]) for s in shells], integer=True)
+    out += _fchk_array("Shell to atom map", [s[1] for s in shells], integer=True)
+    out += _fchk_array("Primitive exponents", [e for s in shells for e in s[2]])
+    out += _fchk_array("Contraction coefficients", [c for s in shells for c in s[3]])
+    if any(s[0] == -1 for s in shells):
+        out += _fchk_array("P(S=P) Contraction coefficients", [c for s in shells for c in (s[4] if s[4] is not None else [0.0] * len(s[2]))])
+    if "energy" in m:
+        out.append(_fchk_scalar("SCF Energy", m["energy"]))
+        out.append(_fchk_scalar("Total Energy", m["energy"]))
+    ea, ca = m["alpha"]
+    out += _fchk_array("Alpha Orbital Energies", list(ea))
+    if "beta" in m:
+        out += _fchk_array("Beta Orbital Energies", list(m["beta"][0]))
+    out += _fchk_array("Alpha MO coefficients", [c for orb in ca for c in orb])
+    if "beta" in m:
+        out += _fchk_array("Beta MO coefficients", [c for orb in m["beta"][1] for c in orb])
+    for label in ("Total SCF Density", "Spin SCF Density", "Total MP2 Density", "Spin MP2 Density", "Total CC Density",
+                  "Mulliken Charges", "ESP Charges", "NPA Charges", "MBS Charges", "Type 6 Charges", "Type 7 Charges",
+                  "Cartesian Gradient", "Cartesian Force Constants", "Dipole Moment", "Quadrupole Moment", "Polarizability"):
+        if label in m.get("fields", {}):
+            out += _fchk_array(label, list(m["fields"][label]))
+    return "\n".join(out) + "\n"
+
+
+def write_fchk_trajectory(m):
+    """Optimisation / IRC trajectory: kind 'Opt' | 'IRC', atoms [(Z, core charge)], points: list of steps
+    [(energy, second value, coords (natom x 3), gradient (natom x 3))]."""
+    atoms = m["atoms"]
+    word = {"Opt": "Optimization", "IRC": "IRC"}[m["kind"]]
+    prefix = {"Opt": "Opt point", "IRC": "IRC point"}[m["kind"]]
+    out = [m["title"], f"{'FOpt' if m['kind'] == 'Opt' else 'Freq':<10s}{'RHF':<30s}{'STO-3G':>30s}"]
+    out.append(_fchk_scalar("Number of atoms", len(atoms)))
+    out += _fchk_array("Atomic numbers", [a[0] for a in atoms], integer=True)
+    out += _fchk_array("Nuclear charges", [a[1] for a in atoms])
+    first = m["points"][0][0][2]
+    out += _fchk_array("Current cartesian coordinates", [c for row in first for c in row])
+    out += _fchk_array(f"{word} Number of geometries", [len(p) for p in m["points"]], integer=True)
+    for ip, steps in enumerate(m["points"]):
+        tag = f"{prefix} {ip + 1:7d}"
+        out += _fchk_array(f"{tag} Results for each geome", [v for st in steps for v in (st[0], st[1])])
+        out += _fchk_array(f"{tag} Geometries", [c for st in steps for row in st[2] for c in row])
+        out += _fchk_array(f"{tag} Gradient at each geome", [c for st in steps for row in st[3] for c in row])
+    return "\n".join(out) + "\n"
+
+
+# ---------------------------------------------------------------------------------------- Gaussian input
+# Gaussian 16 user's reference, "Gaussian input file": Link 0 commands (%...), route section (# lines) terminated by a
+# blank line, title section terminated by a blank line, charge and multiplicity, one line per atom (element, x, y, z in
+# angstrom, free format), terminated by a blank line.
+def write_gaussian_input(m):
+    out = list(m.get("link0", []))
+    out += m["route"]
+    out.append("")
+    out += m["title"]
+    out.append("")
+    out.append(f"{m['charge']} {m['mult']}")
+    for z, x, y, zz in m["atoms"]:
+        out.append(f" {NUM2SYM[z]:<2s} {x:14.8f} {y:14.8f} {zz:14.8f}")
+    out.append("")
+    return "\n".join(out) + "\n"
+
+
+# ---------------------------------------------------------------------------------------- WFX
+# AIMAll "Format Specification for AIM Extended Wavefunction Files (.wfx)": sections <Tag> ... </Tag>, free-format
+# numbers; required sections as listed there; per-MO coefficient blocks preceded by <MO Number> n </MO Number>;
+# primitive types numbered as in WFN files (1 = s, 2..4 = p, 5..10 = d, ...); gradient lines carry the nuclear name.
+def write_wfx(m):
+    """m: title, atoms [(name, Z, charge, x, y, z)], prims [(centre(1-based), type, exponent)], mos [(occ, energy, spin, [coeffs])],
+    energy, virial, net_charge, nelec, nalpha, nbeta, optional mult, model, gradient [(name, gx, gy, gz)], extras."""
+    def sec(tag, lines):
+        return [f"<{tag}>"] + list(lines) + [f"</{tag}>"]
+    nprim = len(m["prims"])
+    out = sec("Title", [" " + m["title"]])
+    out += sec("Keywords", [" GTO"])
+    out += sec("Number of Nuclei", [f" {len(m['atoms'])}"])
+    out += sec("Number of Primitives", [f" {nprim}"])
+    out += sec("Number of Occupied Molecular Orbitals", [f" {len(m['mos'])}"])
+    out += sec("Number of Perturbations", [" 0"])
+    out += sec("Nuclear Names", [f" {a[0]}" for a in m["atoms"]])
+    out += sec("Atomic Numbers", [f" {a[1]}" for a in m["atoms"]])
+    out += sec("Nuclear Charges", [f" {a[2]:21.12E}" for a in m["atoms"]])
+    out += sec("Nuclear Cartesian Coordinates", [f" {a[3]:21.12E} {a[4]:21.12E} {a[5]:21.12E}" for a in m["atoms"]])
+    out += sec("Net Charge", [f" {m['net_charge']:21.12E}"])
+    out += sec("Number of Electrons", [f" {m['nelec']}"])
+    out += sec("Number of Alpha Electrons", [f" {m['nalpha']}"])
+    out += sec("Number of Beta Electrons", [f" {m['nbeta']}"])
+    if "mult" in m:
+        out += sec("Electronic Spin Multiplicity", [f" {m['mult']}"])
+    if "ncore" in m:
+        out += sec("Number of Core Electrons", [f" {m['ncore']}"])
+    if "model" in m:
+        out += sec("Model", [" " + m["model"]])
+    def ints(vals, per=5):
+        return [" " + " ".join(f"{v:d}" for v in vals[k:k + per]) for k in range(0, len(vals), per)]
+    def reals(vals, per=5):
+        return [" " + " ".join(f"{v:21.12E}" for v in vals[k:k + per]) for k in range(0, len(vals), per)]
+    out += sec("Primitive Centers", ints([p[0] for p in m["prims"]]))
+    out += sec("Primitive Types", ints([p[1] for p in m["prims"]]))
+    out += sec("Primitive Exponents", reals([p[2] for p in m["prims"]]))
+    out += sec("Molecular Orbital Occupation Numbers", [f" {mo[0]:21.12E}" for mo in m["mos"]])
+    out += sec("Molecular Orbital Energies", [f" {mo[1]:21.12E}" for mo in m["mos"]])
+    out += sec("Molecular Orbital Spin Types", [f" {mo[2]}" for mo in m["mos"]])
+    body = []
+    for i, mo in enumerate(m["mos"]):
+        body += ["<MO Number>", f" {i + 1}", "</MO Number>"] + reals(mo[3])
+    out += sec("Molecular Orbital Primitive Coefficients", body)
+    out += sec("Energy = T + Vne + Vee + Vnn", [f" {m['energy']:21.12E}"])
+    out += sec("Virial Ratio (-V/T)", [f" {m['virial']:21.12E}"])
+    if "gradient" in m:
+        out += sec("Nuclear Cartesian Energy Gradients", [f" {g[0]} {g[1]:21.12E} {g[2]:21.12E} {g[3]:21.12E}" for g in m["gradient"]])
+    if "nuc_virial" in m:
+        out += sec("Nuclear Virial of Energy-Gradient-Based Forces on Nuclei, W", [f" {m['nuc_virial']:21.12E}"])
+    if "full_virial" in m:
+        out += sec("Full Virial Ratio, -(V - W)/T", [f" {m['full_virial']:21.12E}"])
+    return "\n".join(out) + "\n"
+
+
+# ---------------------------------------------------------------------------------------- Molden (full) / Molekel
+# Molden format description (https://www.theochem.ru.nl/molden/molden_format.html): [Molden Format], [Title],
+# [Atoms] (Angs|AU): name number atomic_number x y z; [GTO]: per atom "atom_sequence_number 0", then shells
+# "label nprim 1.00" followed by "exponent coefficient" lines, atoms separated by an empty line; [5D] / [5D7F] / [5D10F] /
+# [7F] / [9G] switch to spherical functions; [MO]: Sym= / Ene= / Spin= / Occup= followed by "index coefficient" lines.
+# Contraction coefficients refer to normalised primitives; functions within a shell in the documented order.
+def write_molden_full(m):
+    """m: title, unit ('AU'|'Angs'), atoms [(Z, x, y, z)] in that unit, shells [(atom(0-based), 's'|'p'|'d'|..., [(exp, coef)])],
+    pure ('' | '[5D]' ...), pure_first (bool), mos [(sym, energy, spin, occ, [coefs])]."""
+    out = ["[Molden Format]", "[Title]", " " + m["title"], f"[Atoms] {m['unit']}"]
+    for i, (z, x, y, zz) in enumerate(m["atoms"]):
+        out.append(f"{NUM2SYM[z]:<3s}{i + 1:5d}{z:4d} {x:18.10f} {y:18.10f} {zz:18.10f}")
+    if m.get("pure") and m.get("pure_first"):
+        out.append(m["pure"])
+    out.append("[GTO]")
+    for i in range(len(m["atoms"])):
+        out.append(f"{i + 1:4d} 0")
+        for (ic, lab, prims) in m["shells"]:
+            if ic != i:
+                continue
+            out.append(f" {lab} {len(prims):4d} 1.00")
+            for e, c in prims:
+                out.append(f" {e:18.10E} {c:18.10E}")
+        out.append("")
+    if m.get("pure") and not m.get("pure_first"):
+        out.append(m["pure"])
+    out.append("[MO]")
+    for sym, en, spin, occ, coefs in m["mos"]:
+        out += [f" Sym= {sym}", f" Ene= {en:18.10E}", f" Spin= {spin}", f" Occup= {occ:12.6f}"]
+        for k, c in enumerate(coefs):
+            out.append(f"{k + 1:5d} {c:18.10E}")
+    return "\n".join(out) + "\n"
+
+
+# Molekel MKL file (Molekel 4.3 documentation, as written by ORCA's orca_2mkl): $MKL; $CHAR_MULT (charge multiplicity);
+# $COORD (atomic number, x, y, z in angstrom); optional $CHARGES; $BASIS (per atom: "nfunc label 1.00" then
+# "exponent coefficient" lines, atoms separated by "$$"); $COEFF_ALPHA in blocks of up to five orbitals (symmetry labels,
+# energies, one line per basis function); $OCC_ALPHA; the same with _BETA for unrestricted orbitals.
+def write_mkl(m):
+    """m: charge, mult, atoms [(Z, x, y, z) angstrom], charges or None, shells [(atom, label, nfunc, [(exp, coef)])],
+    alpha (energies, [coefs per orbital], occs), beta or None."""
+    out = ["$MKL", "#", "# MKL format file from an independent writer", "#", "$CHAR_MULT", f" {m['charge']} {m['mult']}", "$END", "",
+           "$COORD"]
+    for z, x, y, zz in m["atoms"]:
+        out.append(f"{z:4d} {x:14.8f} {y:14.8f} {zz:14.8f}")
+    out += ["$END", ""]
+    if m.get("charges") is not None:
+        out.append("$CHARGES")
+        out += [f" {q:12.6f}" for q in m["charges"]]
+        out += ["$END", ""]
+    out.append("$BASIS")
+    for i in range(len(m["atoms"])):
+        for (ic, lab, nf, prims) in m["shells"]:
+            if ic != i:
+                continue
+            out.append(f" {nf} {lab} 1.00")
+            for e, c in prims:
+                out.append(f" {e:18.10f} {c:16.10f}")
+        if i + 1 < len(m["atoms"]):
+            out.append("$$")
+    out += ["", "$END", ""]
+    for tag, blk in (("ALPHA", m["alpha"]), ("BETA", m.get("beta"))):
+        if blk is None:
+            continue
+        energies, coefs, occs = blk
+        out.append(f"$COEFF_{tag}")
+        nb = len(coefs[0])
+        for j in range(0, len(energies), 5):
+            cols = list(range(j, min(j + 5, len(energies))))
+            out.append(" " + " ".join("a1g" for _ in cols))
+            out.append(" " + " ".join(f"{energies[k]:14.8f}" for k in cols))
+            for b in range(nb):
+                out.append(" " + " ".join(f"{coefs[k][b]:14.8f}" for k in cols))
+        out += ["$END", "", f"$OCC_{tag}"]
+        for j in range(0, len(occs), 5):
+            out.append(" " + " ".join(f"{o:10.7f}" for o in occs[j:j + 5]))
+        out += ["$END", ""]
+    return "\n".join(out) + "\n"
+
+
+# ---------------------------------------------------------------------------------------- Gaussian log (integral dumps)
+# Output of Gaussian with IOp(3/33=5) / scf(conventional) IOp(3/33=6) extralinks=l316: "NBasis =" line; each one-electron
+# matrix as a lower triangle in blocks of five columns (header line with the column numbers, then "row values..." with
+# Fortran D exponents); two-electron integrals one per line in chemists' notation (ij|kl):
+# (' I=',I3,' J=',I3,' K=',I3,' L=',I3,' Int=',D20.12).
+def write_gaussian_log(m):
+    nb = m["nbasis"]
+    out = [" Entering Gaussian System", f"    NBasis ={nb:4d}  MinDer = 0  MaxDer = 0"]
+    for header, key in ((" *** Overlap *** ", "overlap"), (" *** Kinetic Energy *** ", "kinetic"),
+                        (" ***** Potential Energy ***** ", "potential")):
+        if key not in m:
+            continue
+        mat = m[key]                    # mat[i][j] for j <= i
+        out.append(header)
+        for c0 in range(0, nb, 5):
+            cols = list(range(c0, min(c0 + 5, nb)))
+            out.append("       " + "".join(f"{c + 1:14d}" for c in cols))
+            for i in range(c0, nb):
+                out.append(f"{i + 1:7d}" + "".join(f"{mat[i][j]:14.6E}".replace("E", "D") for j in cols if j <= i))
+    if "eri" in m:
+        out.append(" *** Dumping Two-Electron integrals ***")
+        out += ["", "", "", " ISMode= 0 Mode= 1 IBase=         1 IBasD=         1    131073",
+                " DBase=         0 DBasD=         0         0 IReset=         2    131070",
+                f" IntCnt=     {len(m['eri']):5d} ITotal=     34766 NWIIB=    131072 ISym2E=0"]
+        for i, j, k, l, v in m["eri"]:
+            out.append(f" I={i:3d} J={j:3d} K={k:3d} L={l:3d} Int=" + f"{v:20.12E}".replace("E", "D"))
+        out.append(" Leave Link  316")
+    out.append(" Normal termination of Gaussian 03 at Mon Jan  1 00:00:00 2000.")
+    return "\n".join(out) + "\n"
+
+
+# ---------------------------------------------------------------------------------------- MWFN
+# Multiwfn manual, section 2.5 ".mwfn": header (Wfntype, Charge, Naelec, Nbelec, E_tot, VT_ratio), "# Atom information"
+# with $Centers (index, name, atomic index, nuclear charge, x y z in angstrom), "# Basis function information"
+# (Nbasis, Nindbasis, Nprims, Nshell, Nprimshell, $Shell types: 0=s 1=p 2=6d -2=5d ..., $Shell centers,
+# $Shell contraction degrees, $Primitive exponents, $Contraction coefficients), "# Orbital information" with one block
+# per orbital (Index, Type 0=alpha+beta 1=alpha 2=beta, Energy, Occ, Sym, $Coeff).
+def write_mwfn(m):
+    def reals(vals, per=5):
+        return ["".join(f"{v:16.8E}" for v in vals[k:k + per]) for k in range(0, len(vals), per)]
+    def ints(vals, per=10, w=6):
+        return ["".join(f"{v:{w}d}" for v in vals[k:k + per]) for k in range(0, len(vals), per)]
+    shells = m["shells"]       # [(type, centre(1-based), exps, coefs)]
+    nprimshell = sum(len(s[2]) for s in shells)
+    def nfun(t):
+        l = abs(t)
+        return (l + 1) * (l + 2) // 2 if t >= 0 else 2 * l + 1
+    nprims = sum(len(s[2]) * ((abs(s[0]) + 1) * (abs(s[0]) + 2) // 2) for s in shells)
+    out = ["# Generated by an independent writer", f"Wfntype= {m['wfntype']:3d}", f"Charge= {m['charge']:14.6f}",
+           f"Naelec= {m['naelec']:14.6f}", f"Nbelec= {m['nbelec']:14.6f}", f"E_tot= {m['energy']:16.8E}", f"VT_ratio= {m['virial']:12.8f}", "",
+           "# Atom information", f"Ncenter= {len(m['atoms']):8d}", "$Centers"]
+    for i, (z, q, x, y, zz) in enumerate(m["atoms"]):
+        out.append(f"{i + 1:6d} {NUM2SYM[z]:<2s}{z:4d} {q:5.1f} {x:15.8f} {y:15.8f} {zz:15.8f}")
+    out += ["", "# Basis function information", f"Nbasis= {m['nbasis']:10d}", f"Nindbasis= {m['nbasis']:8d}", f"Nprims= {nprims:10d}",
+            f"Nshell= {len(shells):10d}", f"Nprimshell= {nprimshell:7d}", "$Shell types"]
+    out += ints([s[0] for s in shells], 25, 3)
+    out.append("$Shell centers")
+    out += ints([s[1] for s in shells], 10, 8)
+    out.append("$Shell contraction degrees")
+    out += ints([len(s[2]) for s in shells], 25, 4)
+    out.append("$Primitive exponents")
+    out += reals([e for s in shells for e in s[2]])
+    out.append("$Contraction coefficients")
+    out += reals([c for s in shells for c in s[3]])
+    out += ["", "# Orbital information (nindbasis orbitals)", " "]
+    for i, (typ, en, occ, coefs) in enumerate(m["mos"]):
+        out += [f"Index= {i + 1:9d}", f"Type= {typ}", f"Energy= {en:16.8E}", f"Occ= {occ:10.6f}", "Sym= ?", "$Coeff"]
+        out += reals(coefs)
+        out.append(" ")
+    return "\n".join(out) + "\n"
